@@ -14,8 +14,9 @@ META = {
                   "runs at most once, a side that reports closed has run it exactly once and released everything, a side that closes / is told to close / meets the failure while "
                   "serving is closed and clean when control returns, close is idempotent - all of it also when the service's disconnect hook raises (the hook outcome is a parameter "
                   "of every theorem; c11_raising_hook_refuted is the counterpart for a tree whose _cleanup does not clear in a finally, F25); the refutation for a tree whose "
-                  "serve() does not close when EOFError escapes _dispatch (F6). NOT proved: the second sentence of the property (pending/blocked/later requests fail with EOFError, "
-                  "none hangs) - that half is decided by the harness only (exhaustive single-fault enumeration plus scheduler scenarios). "
+                  "serve() does not close when EOFError escapes _dispatch (F6). The second sentence over the requests of a side (c11_ended_nobody_waits, c11_no_phantom_value, c11_issue_after_end): once a side has ended every request "
+                  "has its value exactly if the peer's reply was dispatched, else EOFError; threads BLOCKED in poll/wait at that moment are outside the model and are the "
+                  "scheduler scenarios of the harness. "
                   "The guarded shapes of close/_cleanup/_handle_close/serve/serve_all are regenerated from the source; the harness injects a failure at every transport call and at "
                   "byte offsets inside packets for a family of workloads and all close orders, checks the property on both real sides and replays each side's entry points in the model.",
     "level_note": "Trusted: Coq kernel, pygen, extraction+driver, the fault-injecting MemStream (a failing call closes the stream and raises EOFError, as SocketStream does; the peer then "
